@@ -39,6 +39,21 @@ fn stacks_with(layer: Layer) -> Vec<(u8, usize)> {
     }
 }
 
+/// the generated TCP headers have their reserved bits and the NS bit clear; set them from the frame's own
+/// bytes (they lie outside every writable field, so every assignment has to preserve them)
+fn spiced(mut frame: Vec<u8>) -> Vec<u8> {
+    let (chain, _) = parse_chain(&frame);
+    for p in &chain {
+        if p.layer == Layer::Tcp && frame.len() > p.start + 13 {
+            let salt = frame[p.start + 4] ^ frame[p.start + 7];
+            if salt & 1 == 1 {
+                frame[p.start + 12] = (frame[p.start + 12] & 0xf0) | (salt >> 4);
+            }
+        }
+    }
+    frame
+}
+
 fn value_text(f: &Field, v: u128) -> String {
     match f.kind {
         Kind::Int => v.to_string(),
@@ -242,7 +257,7 @@ fn fields_section(ctx: &mut Ctx) {
                 }
                 let fb = rnd_bytes(mix64(idx ^ ctx.seed), 220);
                 let mut fc = Choices::new(&fb);
-                let frame = stack_frame(&mut fc, stack);
+                let frame = spiced(stack_frame(&mut fc, stack));
                 let (chain, _) = parse_chain(&frame);
                 let start = match chain.get(depth - 1) {
                     Some(p) if p.layer == f.layer => p.start,
@@ -298,7 +313,7 @@ fn fields_section(ctx: &mut Ctx) {
                 let fb = rnd_bytes(mix64(idx.wrapping_mul(31) ^ rep ^ ctx.seed), 220);
                 let mut fc = Choices::new(&fb);
                 let (stack, depth) = stacks[(k + rep as usize) % stacks.len()];
-                let frame = stack_frame(&mut fc, stack);
+                let frame = spiced(stack_frame(&mut fc, stack));
                 let a = Assign { depth, layer: f.layer, field: f, value_src: src.clone(), in_range: None, reduced: *red };
                 let mut h = frame.clone();
                 h.extend_from_slice(format!("{}<-{}", f.name, src).as_bytes());
@@ -319,7 +334,7 @@ fn fields_section(ctx: &mut Ctx) {
         for v in ["4", "6", "0"] {
             let fb = rnd_bytes(mix64(idx ^ 0xabc), 220);
             let mut fc = Choices::new(&fb);
-            let frame = stack_frame(&mut fc, stack);
+            let frame = spiced(stack_frame(&mut fc, stack));
             let pkt = make_packet(5, 6, frame.len() as u32, frame.len() as u32, &frame);
             let src = format!("(${}).version = {};", depth, v);
             ctx.case(hash_bytes(&frame) ^ depth as u64, true);
@@ -401,7 +416,7 @@ fn record_section(ctx: &mut Ctx) {
 fn history(ctx: &mut Ctx, bytes: &[u8]) -> Vec<Violation> {
     let mut c = Choices::new(bytes);
     let stack = c.below(8) as u8;
-    let frame = stack_frame(&mut c, stack);
+    let frame = spiced(stack_frame(&mut c, stack));
     let (chain, _) = parse_chain(&frame);
     let n = 2 + c.below(7);
     let mut reference = frame.clone();
@@ -465,7 +480,7 @@ fn history(ctx: &mut Ctx, bytes: &[u8]) -> Vec<Violation> {
 fn dispatch_history(ctx: &mut Ctx, bytes: &[u8]) -> Vec<Violation> {
     let mut c = Choices::new(bytes);
     let stack = c.below(8) as u8;
-    let frame = stack_frame(&mut c, stack);
+    let frame = spiced(stack_frame(&mut c, stack));
     let (chain, _) = parse_chain(&frame);
     if chain.len() < 2 {
         return vec![];
